@@ -58,7 +58,9 @@ def writers_of(repo, fields):
     return out
 
 
-SAFE_USES = {"len", "list", "set", "tuple", "frozenset", "dict", "sorted", "bool", "iter", "enumerate", "any", "all", "str"}
+SAFE_USES = {"len", "list", "set", "tuple", "frozenset", "dict", "sorted", "bool", "iter", "enumerate", "any", "all", "str",
+             # read-only builtins: they neither keep nor hand on the container itself
+             "reversed", "zip", "map", "filter", "min", "max", "sum", "isinstance", "repr", "print", "next", "id", "type", "format"}
 SAFE_METHODS = MUTATORS | {"items", "keys", "values", "get", "copy", "index", "count", "setdefault"}
 
 
